@@ -283,11 +283,13 @@ class JsonSchemaParser:
             else:
                 prop_schema = prop
             attname = prop_schema.get('x-var-name') or key
-            if not valid_attr(attname) or attname in attrs or hasattr(dict, attname):
-                # the generated name must differ from the names already taken and from every other property name
-                # ("a-b" next to "a_b")
+            if not valid_attr(attname) or attname in attrs or hasattr(self.object_base_cls, attname):
+                # the generated name must differ from the names already taken, from every other property name
+                # ("a-b" next to "a_b") and from the attributes of the base class ("items", "update", ...)
                 attname = self.get_attname(
-                    attname, excludes=list(attrs) + [k for k in properties if k != key])
+                    attname,
+                    excludes=list(attrs) + [k for k in properties if k != key] + dir(self.object_base_cls)
+                )
             alias = None
             if attname != key:
                 alias = key
